@@ -11,7 +11,10 @@ Tie, re-established on every run:
       each script's own figures; every recorded call is replayed on the model inside Coq
       (Tables/ValidateCasesCheck.v, one shard per core).
 Oracle (independent of the model): the harness re-reads every accepted object through the public
-Terminal tree and judges it with its own typing / size / lock / key analyses (harness/src/vgen.rs)."""
+Terminal tree and judges it with its own typing / size / lock / key analyses (harness/src/vgen.rs).
+  (c) constructor stream (harness/src/vctor.rs, model Ms/ValidateCtorModel.v): every descriptor-level public constructor
+      taking keys or a Threshold of keys on directed + generated inputs; accepted objects judged by the same
+      independent analyses and against Descriptor::from_str of the printed form; every call replayed in Coq."""
 import collections, concurrent.futures, json, os, re, shutil
 import vlib
 
@@ -26,7 +29,9 @@ LIMS = ["max_opcode_count", "max_script_size", "max_witness_items", "max_exec_st
 ENTRY = {1: "Miniscript::from_str_with_validation_params(MAX)", 2: "Miniscript::from_str", 3: "Miniscript::from_str_insane",
          4: "Miniscript::from_str_with_validation_params", 20: "Descriptor/Wsh/Sh/Bare::from_str", 21: "Wsh/Sh/Bare::new",
          22: "Tr::from_str", 23: "Descriptor::from_str(tr)", 24: "Descriptor::from_str(sh(wsh))", 25: "Tr::new(TapTree::leaf)",
-         26: "Descriptor::new_wsh/new_sh/new_bare", 27: "Sh::new_wsh", 30: "Miniscript::decode_with_validation_params",
+         26: "Descriptor::new_wsh/new_sh/new_bare", 27: "Sh::new_wsh", 28: "Wsh::new_sortedmulti / Sh::new_sortedmulti (+ Descriptor:: shorthands)",
+         29: "Sh::new_wsh_sortedmulti (+ Descriptor::new_sh_wsh_sortedmulti)", 33: "Pkh::new", 34: "Wpkh::new / Sh::new_wpkh", 35: "Tr::new(key, None)",
+         36: "Wsh|Sh|Bare::new(Miniscript::from_ast(Terminal::(Sorted)Multi(thresh))?)", 30: "Miniscript::decode_with_validation_params",
          31: "Miniscript::decode", 32: "Miniscript::decode_consensus"}
 CODES = {0: "Ok", 1: "DuplicateKeys", 2: "IllegalDupIf", 3: "IllegalMulti", 4: "IllegalMultiA", 5: "IllegalOrI", 6: "IllegalRawPkh",
          7: "Malleable", 8: "MaxOpCountExceeded", 9: "MaxScriptSizeExceeded", 10: "MaxWitnessItemsExceeded",
@@ -282,8 +287,85 @@ def run_sweeps(rep, hbin, hist, only_key=None):
     return n_inputs
 
 
+def run_ctors(rep, hbin, seed, hist, only_key=None, tie=True):
+    """Constructor stream (harness/src/vctor.rs): every descriptor-level public constructor taking keys or a
+    Threshold of keys, on directed + generated inputs.  Oracle: every accepted object judged by the harness's own
+    context analysis and against the text path.  Tie: every call replayed on Ms/ValidateCtorModel.v inside Coq
+    (same rcase layout and the same ValidateCasesCheck.v as the string stream)."""
+    d = os.path.join(wdir(), "ctor")
+    shutil.rmtree(d, ignore_errors=True)
+    os.makedirs(d)
+    gen = os.path.join(d, "ValidateCasesGen.v")
+    p = vlib.sh([hbin, "validate", "ctors", str(seed), gen], timeout=900)
+    try:
+        out = json.loads(p.stdout.strip().splitlines()[-1])
+    except (ValueError, IndexError):
+        raise RuntimeError("validate ctors failed: " + p.stderr[-1500:])
+    for k, v in out.get("hist", {}).items():
+        hist["constructor stream: ctx | constructor | input | verdict"][k] += v
+    known = {kf["key"] for kf in rep.known}
+    groups = collections.OrderedDict()
+    # simplest witness of each (key, constructor) first: fewest non-compressed keys, then fewest keys
+    viols = sorted(out.get("violations", []), key=lambda v: (v[0], sum(1 for ch in v[2].get("key_kinds", "") if ch != "c"), len(v[2].get("keys", []))))
+    for key, what, inp in viols:
+        if only_key and key != only_key:
+            continue
+        groups.setdefault((key, inp.get("constructor")), []).append((what, inp))
+    unknown = []
+    for (key, ctor), items in groups.items():
+        what, inp = items[0]
+        hist["oracle"][key] += len(items)
+        obj = {"property": PID, "engine": "validate", "sweep": "ctors", "seed": seed, "key": key, "input": inp, "oracle_verdict": what,
+               "inputs_of_this_constructor_with_this_verdict": len(items)}
+        rep.violation(key, "%s [%d such input(s) for this constructor in this run]" % (what, len(items)), obj, found_input=True)
+        if key not in known:
+            unknown.append((key, what, inp))
+    info = {"inputs": out.get("inputs", 0), "calls_replayed_on_model_in_coq": 0, "oracle_violations": len(viols), "tie": "not run", "samples": out.get("samples", [])}
+    if not tie:
+        return True, info
+    g = coqc(gen, extra_q=d)
+    if g.returncode != 0:
+        raise RuntimeError("ctor stream: generated file does not compile: " + (g.stderr or g.stdout)[-1500:])
+    c = coqc("Tables/ValidateCasesCheck.v", extra_q=d, out=os.path.join(d, "ValidateCasesCheck.vo"))
+    m = re.search(r"=\s*\((\d+),\s*(\d+)\)", re.sub(r"\s+", " ", c.stdout))
+    info["calls_replayed_on_model_in_coq"] = int(m.group(1)) if m else 0
+    if c.returncode == 0:
+        info["tie"] = "ok"
+        return True, info
+    info["tie"] = "broken"
+    dg = coqc("Tables/ValidateCasesDiag.v", extra_q=d, out=os.path.join(d, "ValidateCasesDiag.vo"))
+    diag = parse_diag(dg.stdout) if dg.returncode == 0 else []
+    tgroups = collections.OrderedDict()
+    for t in diag:
+        cid, kind, (cls, st, a, b, impl, model) = t[0], t[1], t[2:]
+        gk = "%s: implementation %s / model %s" % (ENTRY.get(a, a), CODES.get(impl, impl), CODES.get(model, model))
+        tgroups.setdefault(gk, []).append(cid)
+    if not tgroups:
+        tgroups["unreadable diagnosis: " + (dg.stderr or c.stderr or c.stdout)[-400:]] = [0]
+    for gk, cids in tgroups.items():
+        if unknown:
+            fk, fw, finp = unknown[0]
+            rep.violation("tie:ctor:" + gk, "constructor model and code disagree on %d call(s) (%s); the property fails on: %s" % (len(cids), gk, fw),
+                          {"property": PID, "engine": "validate", "sweep": "ctors", "seed": seed, "key": fk, "input": finp, "oracle_verdict": fw,
+                           "broken_tie": "cases_match_model on the constructor stream (Ms/ValidateCtorModel.v)", "disagreeing_call": gk,
+                           "disagreeing_cases": cids[:20]}, found_input=True)
+        else:
+            rep.violation("tie:ctor:" + gk, "constructor model and code disagree on %d call(s) (%s); every accepted object of the stream obeys its context" % (len(cids), gk),
+                          {"property": PID, "broken_tie": "cases_match_model on the constructor stream (Ms/ValidateCtorModel.v)", "disagreeing_call": gk,
+                           "disagreeing_cases": cids[:20], "seed": seed}, found_input=False)
+    return False, info
+
+
 def do_replay(rep, hbin, path, seed):
     rp = json.load(open(path))
+    if rp.get("sweep") == "ctors":
+        hist = collections.defaultdict(collections.Counter)
+        _ok, info = run_ctors(rep, hbin, rp.get("seed", seed), hist, only_key=rp.get("key"), tie=False)
+        rep.coverage.update({"obligations": 1, "discharged": 0 if rep.violations else 1, "evaluations": max(info["inputs"], 1), "distinct_nontrivial": max(info["inputs"], 2),
+                             "rule": "replay: the constructor stream again, violations with key %s" % rp.get("key"),
+                             "checker_cmd": "verif-harness validate ctors", "trusted_base": vlib.TRUSTED_BASE_COMMON,
+                             "samples": [json.dumps(rp.get("input"))[:300]], "replayed": path})
+        return True
     if rp.get("sweep"):
         hist = collections.defaultdict(collections.Counter)
         n = run_sweeps(rep, hbin, hist, only_key=rp.get("key"))
@@ -347,6 +429,7 @@ def run(rep, tier, seed, replay):
         run_unknown = judge_obs(rep, all_rows, seed, hist)
         histograms(all_rows, hist)
         sweep_inputs = run_sweeps(rep, hbin, hist)
+        ctor_ok, cinfo = run_ctors(rep, hbin, seed, hist)
         # a changed constant: does some accepted script now break its context (judged above by the oracle)?
         for key, what, obj in pinfo.pop("pending", []):
             if run_unknown:
@@ -416,8 +499,8 @@ def run(rep, tier, seed, replay):
         if not chk_ok:
             rep.violation("coqchk", "coqchk rejects Properties/C12.vo: " + (ck.stderr or ck.stdout)[-500:],
                           {"property": PID, "broken_tie": "coqchk Verif.C12"}, found_input=False)
-    obligations = len(thms) + 4
-    discharged = (len(thms) if ok and chk_ok else 0) + (3 if params_ok else 0) + (1 if tie_ok else 0)
+    obligations = len(thms) + 5
+    discharged = (len(thms) if ok and chk_ok else 0) + (3 if params_ok else 0) + (1 if tie_ok else 0) + (1 if ctor_ok else 0)
     parsed = [r for r in all_rows if r.get("parsed")]
     samples = []
     for r in all_rows[:: max(1, len(all_rows) // 12)][:12]:
@@ -426,7 +509,8 @@ def run(rep, tier, seed, replay):
     rep.coverage.update({
         "obligations": obligations, "discharged": discharged,
         "checker_cmd": "make -C coq ; coqc Properties/C12.v ; verif-harness validate params | coqc Tables/ParamTablesCheck.v ; "
-                       "verif-harness validate cases (x%d shards) | coqc Tables/ValidateCasesCheck.v" % cfg["shards"],
+                       "verif-harness validate cases (x%d shards) | coqc Tables/ValidateCasesCheck.v ; "
+                       "verif-harness validate ctors | coqc Tables/ValidateCasesCheck.v" % cfg["shards"],
         "trusted_base": vlib.TRUSTED_BASE_COMMON + [
             "Ms/ValidateSpec.v (hand-written: fieldwise order, defect of each switch, figure of each limit, rules of each context)",
             "harness/src/vgen.rs (independent typing / size / lock / key analyses used as oracle; port of Ms/Spec.v)",
@@ -434,7 +518,8 @@ def run(rep, tier, seed, replay):
         "exhaustive_part": "ValidationParams constants (11, field by field) and intersect/entails on the generating set",
         "params": pinfo, "cases": len(all_rows), "cases_parsed": len(parsed), "calls_replayed_on_model_in_coq": calls,
         "differing_calls": n_diff, "class_only_differences_advisory": class_diffs,
-        "evaluations": calls + pinfo["lattice_rows_compared_in_coq"] + pinfo["primitive_rows_compared_in_coq"] + sweep_inputs,
+        "evaluations": calls + pinfo["lattice_rows_compared_in_coq"] + pinfo["primitive_rows_compared_in_coq"] + sweep_inputs + cinfo["calls_replayed_on_model_in_coq"],
+        "constructor_stream": cinfo,
         "translating_entry_point_calls": sweep_inputs, "distinct_nontrivial": len({r.get("string") for r in all_rows}),
         "rule": "28 recipes x 4 contexts (sane, each defect class, near-limit figures, boundary locks/thresholds, ill-typed) + corpus; "
                 "every entry point; parameter sets: MAX, SANE, CONSENSUS, MAX minus each switch, per context CONSENSUS/SANE and every "
@@ -445,7 +530,8 @@ def run(rep, tier, seed, replay):
     rep.assumptions = [
         "the summary record abstracts the script: base type / malleability / signedness (C05, C06), ext figures (C09), script size (C04), "
         "mixed-lock predicate (C18) are inputs of the model, cross-checked on every accepted object by the harness's own analyses",
-        "strings only: ASTs built with from_ast/from_components_unchecked reach validate through the same method (tied by the rows of this run)",
+        "string stream: ASTs built with from_ast/from_components_unchecked reach validate through the same method (tied by the rows of this run); "
+        "the constructor stream builds its objects programmatically (Threshold of keys, unchecked multi fragments, from_ast)",
         "error classes are compared exactly on single-defect rows (one switch off / one limit moved), accept/reject elsewhere (DESIGN App. C)",
         "allow_compressed_keys is inert while x-only keys are allowed (documented in validate_pk); stated as refuted + partial theorems, not as a finding",
     ]
